@@ -7,6 +7,7 @@ theorems below are statements about what the source says *now*.
 -/
 import MatidModel.Radii
 import MatidGen.Radii
+import MatidGen.DimRule
 
 namespace Matid.Props.C19
 open Matid.Radii MatidGen.Radii
@@ -80,5 +81,11 @@ theorem preset_vdw_covalent_len_ok : preset_vdw_covalent_len = vdwTable.length :
 /-! ### non-vacuity: the fallback branch is really exercised -/
 example : (tables.get .vdw 61).isNan = true ∧ (tables.get .cov 61).finitePos = true := by decide +kernel
 example : (tables.get .vdw 6).isNan = false := by decide +kernel
+
+/-- the three consumers (get_dimensionality, get_distances, SBC.get_clusters) resolve their `radii` argument once and
+unconditionally through get_radii, and get_radii hands a custom array back unchanged (both translated from the AST) — the
+syntactic basis on which `consumer_equal` applies to them -/
+theorem consumers_resolve_via_get_radii :
+    MatidGen.DimRule.consumersResolveViaGetRadii = true ∧ MatidGen.DimRule.customReturnedUnchanged = true := by decide
 
 end Matid.Props.C19
